@@ -85,9 +85,9 @@ class ParseRecv(ICommParseRecv):
                 fmt += decode.dsfmt
 
         if decode.dtype == EParseDataType.NUM:
-            if decode.scale:
-                # scale numeric data
-                vect_scale_l = [x * decode.scale for x in sample.data]
+            if decode.scale and decode.scale != 1:
+                # scale numeric data - fixed-point raw values are integers
+                vect_scale_l = [round(x * decode.scale) for x in sample.data]
             else:
                 # not scaled
                 vect_scale_l = list(sample.data)
